@@ -29,18 +29,25 @@ def P(pid, **kw):
 
 
 P('C01', claimed=True, needs_driver=True, level='other',
-  contracts=['synth_specialindex', 'synth_ugen'], drivers=['vf.drivers.C01'],
-  level_text=('The opcode numbers of every operator name and Python alias, and the selector each '
-              'AbstractObject operator method passes, are exhaustive finite obligations on the real '
-              'tables; the constructor-time algebraic short-cuts and rate inference of the operator '
-              'units are postconditions discharged for all operand kinds. The optimiser as a whole '
-              '(rewrites, dead-code elimination, topological sort) is decided by a bounded run-time '
-              'contract: every generated graph program is compiled, its bytes parsed by an '
-              'independent SCgf reader and its denotation compared with the source expression modulo '
-              'the ring identities of the statement.'),
-  level_note=('The optimiser mutates object graphs through sets and call-backs and is outside the '
-              'provable subset: bounded only (exhaustive small DAGs + seeded random). Trusted: the '
-              'independent SCgf-2 reader and denotation normal form (oracles), Opcodes.h numbering.'),
+  contracts=['synth_specialindex', 'synth_ugen', 'synth_optimizer'], drivers=['vf.drivers.C01'],
+  level_text=('Discharged: the opcode numbers of every operator name and Python alias, and the selector each '
+              'AbstractObject operator method passes (exhaustive finite obligations on the real tables); the '
+              'constructor-time algebraic short-cuts and rate inference of the operator units for all operand '
+              'kinds; and the five arithmetic rewrites of the graph optimiser (BinaryOpUGen._optimize_to_sum3 / '
+              '_to_sum4 / _to_muladd / _addneg / _optimize_sub) for every combination of operand shapes incl. '
+              'both operands being one object and any number of readers: either nothing at all happens, or '
+              'exactly one operand whose only reader is the unit itself is removed and exactly one new unit is '
+              'made whose denotation equals the replaced unit\'s (ghost denotation over the reals), which does '
+              'not read the removed unit, inherits the readers and has the reader sets updated. Bounded: the '
+              'optimiser as a whole (dead-code elimination, the order rewrites are tried in, topological sort) - '
+              'every generated graph program is compiled, its bytes parsed by an independent SCgf reader and its '
+              'denotation compared with the source expression modulo the ring identities of the statement.'),
+  level_note=('In the rewrite contracts rate lookups and MulAdd._can_be_muladd are ghost booleans, '
+              'SynthDef._remove_ugen/_replace_ugen and _optimize_update_descendants ghost events, the meaning of '
+              'the units the constructors build is taken from their own proved contracts. Dead-code elimination, '
+              'the reader-set bookkeeping and the sort mutate object graphs through sets: bounded only (exhaustive '
+              'small DAGs + seeded random). Trusted: the independent SCgf-2 reader and denotation normal form '
+              '(oracles), Opcodes.h numbering.'),
   unreached=['acceptance by a real scsynth'])
 
 P('C02', claimed=True, needs_driver=True, level='other',
